@@ -399,6 +399,12 @@ fn check_tiny(prog: &Program, seed: u64, thorough: bool, rep: &mut Report) {
 }
 
 pub fn run(p: &Params, rep: &mut Report) {
+    if p.shard == 7 {
+        // operand and class counts beyond 2^10 (and, for one term, beyond 2^16)
+        for n in if p.thorough { vec![1100u32, 2100, 4200] } else { vec![1100u32] } {
+            super::ladder::wide_union(rep, "C07", n, p.seed);
+        }
+    }
     let stride = 1;
     for_tiny_programs(p, rep, stride, p.size(200, 4000), |prog, seed, rep| check_tiny(prog, seed, p.thorough, rep));
     let n = p.size(40, 400);
